@@ -44,8 +44,11 @@ def check_only_disjuncts(model, modname: str) -> Dict[str, str]:
         conj = flatten_boolop(d, ast.And)
         head = conj[0]
         if isinstance(head, ast.Call) and dotted(head.func) == "isinstance" and len(head.args) == 2:
-            cname = dotted(head.args[1])
-            out[cname] = norm(d)
+            classes = head.args[1].elts if isinstance(head.args[1], ast.Tuple) else [head.args[1]]
+            for c in classes:
+                cname = dotted(c)
+                if cname:
+                    out[cname] = norm(d)
     return out
 
 
@@ -552,6 +555,8 @@ def mutants(mb):
     mb.add_text("float-in-check-only", D, "    NoneMethod,\n    BoolMethod,\n    IntMethod,\n    StrMethod,", "    NoneMethod,\n    BoolMethod,\n    IntMethod,\n    FloatMethod,\n    StrMethod,", "C08.R1", "FloatMethod")
     mb.add_text("typecheck-identity-relisted", S, "CHECK_ONLY_METHODS = (\n    IdentityMethod,\n    CollectionCheckOnlyMethod,", "CHECK_ONLY_METHODS = (\n    IdentityMethod,\n    TypeCheckIdentityMethod,\n    CollectionCheckOnlyMethod,", "C08.R1", "TypeCheckIdentityMethod")
     mb.add_text("typecheck-any-fallback", S, "            isinstance(method, TypeCheckMethod)\n            and isinstance(method.fallback, NoFallback)\n            and check_only(method.method)", "            isinstance(method, TypeCheckMethod)\n            and check_only(method.method)", "C08.R1", "TypeCheckMethod")
+    mb.add_text("typecheck-merged-disjunct", S, "            isinstance(method, TypeCheckIdentityMethod)\n            and isinstance(method.fallback, NoFallback)\n        )\n        or (\n            isinstance(method, TypeCheckMethod)\n            and isinstance(method.fallback, NoFallback)\n            and check_only(method.method)\n        )",
+                "            isinstance(method, (TypeCheckIdentityMethod, TypeCheckMethod))\n            and isinstance(method.fallback, NoFallback)\n        )", "C08.R1", "TypeCheckMethod")
     mb.add_text("union-any-fallback", S, "            isinstance(method, UnionMethod)\n            and isinstance(method.fallback, NoFallback)\n", "            isinstance(method, UnionMethod)\n", "C08.R1", "UnionMethod")
     mb.add_text("optional-coercer", D, "            isinstance(method, OptionalMethod)\n            and method.coercer is None\n            and check_only(method.value_method)", "            isinstance(method, OptionalMethod)\n            and check_only(method.value_method)", "C08.R1", "OptionalMethod")
     mb.add_text("optional-child-unchecked", D, "            isinstance(method, OptionalMethod)\n            and method.coercer is None\n            and check_only(method.value_method)", "            isinstance(method, OptionalMethod)\n            and method.coercer is None", "C08.R1", "OptionalMethod")
